@@ -121,6 +121,9 @@ def generate(rng, tier):
             case["sep"] = rng.choice([";", "\t", "|"])
         if n == 0:
             case["map"] = {}
+        if case["reader"] == "geojson" and rng.random() < 0.12:
+            case["subset"] = ["geometry"]          # just the shapes: a restriction like any other, not "no restriction"
+            case["map"] = {}
         if case["reader"] in ("df-csv", "lod-csv") and rng.random() < 0.25 and n:
             # header-less file: columns are known by generated names a, b, c, ...
             case["noheader"] = True
